@@ -134,6 +134,13 @@ def check(ctx):
     uf = find("use_flat_columns = M_v", nsp)
     ok = len(uf) == 1 and eqv(uf[0][1]["M_v"], "not any((isinstance(subspec, compounds) for subspec in spec.values()))")
     ctx.ob("ALG.agg-spec.flat-columns", nsp, "use_flat_columns = not any(value is a list/tuple/dict)", ok, "" if ok else "a dict spec mixing scalars and lists gets flat columns: the later function of a column overwrites the earlier one (pandas returns MultiIndex columns)")
+    # ---------------- the second aggregation stage gets dropna whenever it was GIVEN (False is a choice, not "absent")
+    gag = ctx.model.module("dask/dataframe/groupby.py").func("_groupby_aggregate")
+    dn = find("dropna = M_v", gag)
+    ok = len(dn) == 1 and eqv(dn[0][1]["M_v"], "{'dropna': dropna} if dropna is not None else {}")
+    ob_ = find("observed = M_v", gag)
+    ok2 = len(ob_) == 1 and eqv(ob_[0][1]["M_v"], "{'observed': observed} if observed is not None else {}")
+    ctx.ob("DEFAULT.groupby-aggregate.options", gag, "_groupby_aggregate forwards dropna / observed when they are not None", ok and ok2, "" if ok and ok2 else "an explicit dropna=False is dropped on the regroup: the NaN-key group that pandas keeps disappears from sum/count/first/...")
 
 
 VARIANTS = [
